@@ -122,7 +122,9 @@ def realign_inputs(draw, min_records=1, max_records=14, max_ln=12, max_chroms=1)
         line, read = draw(realign_record(g, lm, names[i], rnd))
         lines.append(line)
         fasta.append(">%s\n%s\n" % (names[i], read))
-    return {"gfa": gen_graph.gfa_text(g, with_seq=True, order_seed=draw(st.integers(0, 99))), "gaf": lines,
+    ov = draw(st.integers(0, 20))
+    return {"gfa": gen_graph.gfa_text(g, with_seq=True, order_seed=draw(st.integers(0, 99)),
+                                      overlap_seed=ov if ov < 7 else None), "gaf": lines,
             "fasta": "".join(fasta)}
 
 
@@ -180,6 +182,33 @@ def run_realign(case, d, platform=None, cores=None, batch=None, sub="out.gaf", g
     return res, text
 
 
+class _Done:
+    def __init__(self, returncode, stderr):
+        self.returncode, self.stderr = returncode, stderr
+
+
+def run_group(argv, timeout):
+    """Run a command in its own process group; on timeout kill the whole group (workers included) and return None."""
+    import signal
+    import subprocess
+
+    p = subprocess.Popen(argv, stdout=subprocess.DEVNULL, stderr=subprocess.PIPE, start_new_session=True)
+    try:
+        _, err = p.communicate(timeout=timeout)
+        return _Done(p.returncode, err)
+    except subprocess.TimeoutExpired:
+        return None
+    finally:
+        try:
+            os.killpg(p.pid, signal.SIGKILL)  # also reaps workers a failed run left behind
+        except (ProcessLookupError, PermissionError):
+            pass
+        try:
+            p.communicate(timeout=10)
+        except Exception:
+            pass
+
+
 def run_realign_subprocess(case, d, cores, batch, nofile=4096, timeout=180, out_name="out.gaf"):
     """Real multiprocessing, in a child process with a time limit (a deadlock must not take the harness with it).
     Returns ("ok"|"exit"|"timeout", status) and the output text or None."""
@@ -193,11 +222,10 @@ def run_realign_subprocess(case, d, cores, batch, nofile=4096, timeout=180, out_
     if os.path.exists(out):
         os.remove(out)
     drv = os.path.join(os.path.dirname(os.path.abspath(__file__)), "real_run_driver.py")
-    try:
-        p = subprocess.run([_sys.executable, drv, core.REPO, d, str(cores), str(batch or 1000), str(nofile)],
-                           timeout=timeout, stdout=subprocess.DEVNULL, stderr=subprocess.PIPE)
-    except subprocess.TimeoutExpired:
+    res = run_group([_sys.executable, drv, core.REPO, d, str(cores), str(batch or 1000), str(nofile)], timeout)
+    if res is None:
         return ("timeout", timeout), None
+    p = res
     text = core.read_text(out) if os.path.exists(out) else None
     if p.returncode == 0:
         return ("ok", None), text
